@@ -19,7 +19,7 @@ RULE = {"C08": "generated robot definitions: 1-4 components (own and inherited a
                "hash of the definition."}
 REQUIRED = {"C08": {"rel:plain": 200, "rel:prefixed": 100, "rel:both": 50, "rel:falsy": 100, "rel:subclass": 50, "rel:bool-for-int": 30,
                     "rel:generic-alias": 30, "rel:preset-class": 50, "rel:preset-init": 50, "rel:private": 50, "rel:component-earlier": 50,
-                    "rel:component-later": 50, "rel:absent": 50, "rel:wrong-type": 50, "rel:none": 20, "rel:ctor-param": 50,
+                    "rel:component-later": 50, "rel:absent": 50, "rel:wrong-type": 50, "rel:wrong-type-prefixed": 20, "rel:none": 20, "rel:ctor-param": 50,
                     "rel:inherited-annotation": 50, "rel:mode-target": 50, "startup-failed-as-expected": 100,
                     "identity-checked-in-setup": 300, "identity-checked-after-init": 300, "untouched-checked": 100}}
 ASSUMPTIONS = {"C08": ["a robot attribute whose value is None is generated only where both readings of 'if there is none' give the same outcome",
@@ -101,7 +101,7 @@ def gen_case(rng, uid):
         if others:
             rels += ["component", "component"]
         if allow_error:
-            rels += ["absent", "wrong-type", "none"]
+            rels += ["absent", "wrong-type", "none", "wrong-type-prefixed"]
         rel = rng.choice(rels)
         a = {"name": name, "ann": ann, "rel": rel}
         if rel == "plain":
@@ -145,6 +145,8 @@ def gen_case(rng, uid):
             pass
         elif rel == "wrong-type":
             place(name, rng.choice(BAD[ann]))
+        elif rel == "wrong-type-prefixed":
+            place(f"{owner}_{name}", rng.choice(BAD[ann]))
         elif rel == "none":
             place(name, ("lit", None))
         return a
